@@ -352,7 +352,11 @@ impl Value {
         match self {
             Self::Null => "null".to_string(),
             Self::Int(v) => format!("i:{v}"),
-            Self::Float(v) => format!("f:{}", v.to_bits()),
+            Self::Float(v) => {
+                // -0.0 == 0.0, so both zeros must share one index entry
+                let v = if *v == 0.0 { 0.0 } else { *v };
+                format!("f:{}", v.to_bits())
+            },
             Self::String(v) => {
                 let mut hasher = std::collections::hash_map::DefaultHasher::new();
                 v.hash(&mut hasher);
